@@ -334,6 +334,66 @@ def fault_scenarios(ctx, n):
     return fails, {"fault_scenarios": len(cases), "fault_failures": len(fails)}
 
 
+# ---------------------------------------------------------------- attribute updates racing with the stages that read the attributes
+RACE_CASES = [
+    # (toxic, update bodies applied in turn, chunk size)
+    (L.tx("bandwidth", rate=1), ['{"attributes": {"rate": 1000}}', '{"attributes": {"rate": 1}}'], 2000),
+    (L.tx("bandwidth", rate=3), ['{"attributes": {"rate": 0}}', '{"attributes": {"rate": 92233720368547758}}', '{"attributes": {"rate": 2}}'], 5000),
+    (L.tx("slicer", average_size=10, size_variation=0, delay=20000), ['{"attributes": {"average_size": 1000, "size_variation": 999}}',
+                                                                          '{"attributes": {"average_size": 3, "size_variation": 1}}'], 3000),
+    (L.tx("latency", latency=50, jitter=0), ['{"attributes": {"latency": 1, "jitter": 4611686018427387903}}', '{"attributes": {"latency": 80, "jitter": 0}}'], 500),
+    (L.tx("limit_data", bytes=1 << 40), ['{"attributes": {"bytes": 1099511627777}}', '{"attributes": {"bytes": 1099511627776}}'], 700),
+]
+
+
+def race_family(ctx, rounds):
+    """real time, real scheduler: 200-300 in-memory connections stream through one toxic while its attributes are updated back and forth
+    (the stages read the attributes of the shared toxic object while the update writes them). A stage that crashes kills the harness
+    process; every case runs in a process of its own."""
+    vt = os.path.join(C.BUILD, "vt.test")
+    if not os.path.exists(vt):
+        C.go_build_harness(ctx, "vt")
+    findings, cov = [], {"attribute_update_races": 0, "race_updates": 0, "race_bytes": 0}
+    from concurrent.futures import ThreadPoolExecutor
+
+    def one(k):
+        tox, bodies, chunk = RACE_CASES[k % len(RACE_CASES)]
+        case = {"toxic": tox, "bodies": bodies, "links": 300 if k % len(RACE_CASES) < 2 else 120, "chunk": chunk, "updates": 10,
+                "period_us": 110000 + 1000 * (k // len(RACE_CASES)), "stagger_us": 333}
+        fin = os.path.join(C.BUILD, "race_in_%d.json" % k)
+        fout = os.path.join(C.BUILD, "race_out_%d.json" % k)
+        with open(fin, "w") as f:
+            json.dump({"cases": [case]}, f)
+        if os.path.exists(fout):
+            os.remove(fout)
+        rc, out = C.sh([vt, "-test.run", "^TestHarness$", "-test.timeout", "120s", "-mode", "race", "-in", fin, "-out", fout],
+                       env=dict(C.GOENV, LOG_LEVEL="fatal"), timeout=180)
+        if not os.path.exists(fout):
+            m = re.search(r"(panic: .*|fatal error: .*)", out)
+            where = re.search(r"toxics/\w+\.go:\d+", out)
+            return case, {"crash": (m.group(1) if m else out[-300:]) + (" at " + where.group(0) if where else "")}
+        return case, json.load(open(fout))[0]
+
+    with ThreadPoolExecutor(max_workers=3) as ex:
+        for case, r in ex.map(one, range(rounds * len(RACE_CASES))):
+            cov["attribute_update_races"] += 1
+            if "crash" in r:
+                ty = case["toxic"]["type"]
+                findings.append(("attribute-update-race-" + ty,
+                                 "a %s stage crashed the process while its attributes were being updated on %d streaming connections (%s): %s"
+                                 % (ty, case["links"], " / ".join(case["bodies"]), re.sub(r"\s+", " ", r["crash"])[:200]),
+                                 {"kind": "failing-input", "race": True, "case": case, "observed": r}))
+            else:
+                cov["race_updates"] += r.get("updates", 0)
+                cov["race_bytes"] += r.get("delivered", 0)
+    seen, out = set(), []
+    for f in findings:
+        if f[0] not in seen:
+            seen.add(f[0])
+            out.append(f)
+    return out, cov
+
+
 def side(ctx, proof):
     cov = {}
     deep = 1 if proof["build_ok"] else 5
@@ -341,7 +401,9 @@ def side(ctx, proof):
     cov.update(cov1)
     ff, cov2 = fault_scenarios(ctx, (12 if ctx.tier == "quick" else 300) * deep)
     cov.update(cov2)
-    return fz + ff, cov
+    rf, cov3 = race_family(ctx, (1 if ctx.tier == "quick" else 12) * deep)
+    cov.update(cov3)
+    return rf + fz + ff, cov
 
 
 def run(ctx):
@@ -354,6 +416,8 @@ def run(ctx):
              "their data; a case that kills or wedges the process is found by the per-case re-run and the watchdog; (2) a real "
              "toxiproxy-server fed a fuzzed request stream (model stream, mutated bodies, oversize bodies, raw bytes, boundary attributes) "
              "with a health check every 100 requests; (3) fault scenarios on real sockets after which a fresh connection must be served; "
+             "(4) real-time races: 120-300 streaming connections through one toxic whose attributes are updated back and forth between "
+             "extreme values (bandwidth rate, slicer sizes, latency jitter, limit) while the stages read them; "
              "non-trivial = attribute outside the documented range; distinct by JSON",
         nontrivial=lambda c: "c07" in c and outside_guard(effective_toxic(c)),
         assumptions=["memory exhaustion by sheer volume, fd limits and net/http internals are outside the model",
@@ -362,4 +426,23 @@ def run(ctx):
 
 
 def replay(ctx, path):
+    rp = json.load(open(path))
+    if rp.get("race"):
+        vt = os.path.join(C.BUILD, "vt.test")
+        C.go_build_harness(ctx, "vt")
+        fin, fout = os.path.join(C.BUILD, "race_replay_in.json"), os.path.join(C.BUILD, "race_replay_out.json")
+        for attempt in range(5):
+            with open(fin, "w") as f:
+                json.dump({"cases": [rp["case"]]}, f)
+            if os.path.exists(fout):
+                os.remove(fout)
+            rc, out = C.sh([vt, "-test.run", "^TestHarness$", "-test.timeout", "120s", "-mode", "race", "-in", fin, "-out", fout],
+                           env=dict(C.GOENV, LOG_LEVEL="fatal"), timeout=180)
+            if not os.path.exists(fout):
+                m = re.search(r"(panic: .*|fatal error: .*)", out)
+                print("VIOLATION property=%s replay=%s" % (PID, path))
+                print("  what: the process crashed during the race (attempt %d): %s" % (attempt + 1, m.group(1) if m else out[-300:]))
+                return 1
+        print("replay passes on the current tree (5 attempts)")
+        return 0
     return L.replay_link(ctx, PID, path, grid_oracle)
